@@ -1,7 +1,50 @@
 package wire
 
-import "verif/harness/internal/ev"
+import (
+	"encoding/json"
+	"io"
+
+	"github.com/CrowdStrike/csproto"
+
+	"verif/harness/internal/ev"
+)
 
 func replayMore(rp *ev.Replay) *ev.Failure {
+	switch rp.Property + "/" + rp.Test {
+	case "C03/dcase":
+		var c DCase
+		if err := json.Unmarshal(rp.Case, &c); err != nil {
+			return ev.Failf("C03/replay", "bad case: %v", err)
+		}
+		f, _ := oracleC03(&c)
+		return f
+	case "C19/ncase":
+		var c NCase
+		if err := json.Unmarshal(rp.Case, &c); err != nil {
+			return ev.Failf("C19/replay", "bad case: %v", err)
+		}
+		return oracleC19(&c)
+	case "C03/dcase-enum":
+		var c struct{ In []byte }
+		if err := json.Unmarshal(rp.Case, &c); err != nil {
+			return ev.Failf("C03/replay", "bad case: %v", err)
+		}
+		for off := 0; off <= len(c.In); off++ {
+			for mode := 0; mode < 2; mode++ {
+				for m := range dmethods {
+					s := &dstate{in: c.In, d: csproto.NewDecoder(c.In)}
+					_, _ = s.d.Seek(int64(off), io.SeekStart)
+					if mode == 1 {
+						s.d.SetMode(csproto.DecoderModeFast)
+						s.mode = csproto.DecoderModeFast
+					}
+					if f, _ := s.step(Op{M: m}, true); f != nil {
+						return f
+					}
+				}
+			}
+		}
+		return nil
+	}
 	return ev.Failf(rp.Property+"/replay", "unknown replay kind %s/%s", rp.Property, rp.Test)
 }
